@@ -284,10 +284,13 @@ def explore(body, start_bb, carriers, stop_at=None, track_ret=True, limit=6000, 
                     new = E("ControlFlow", *[m[v] for v in a0.val])
                 elif KEEP_ERR.search(name) and a0.fam == "Result":
                     new = a0 if a0.val == frozenset({"Err"}) else None
-                    if name.endswith("::map_err") and a0.val == frozenset({"Ok"}):
+                    # map / map_err / inspect* keep the variant either way; and_then only keeps a failure
+                    if re.search(r"::(map_err|map|inspect|inspect_err)$", name):
                         new = a0
                 elif KEEP_OPT.search(name) and a0.fam == "Option":
                     new = a0 if a0.val == frozenset({"None"}) else None
+                    if re.search(r"::(map|inspect|copied|cloned|as_ref)$", name):
+                        new = a0
                 elif OK_OR.search(name) and a0.fam == "Option":
                     m = {"Some": "Ok", "None": "Err"}
                     new = E("Result", *[m[v] for v in a0.val])
